@@ -81,6 +81,28 @@ def call(g, act, args):
     raise KeyError(act)
 
 
+def copy_by(g, route):
+    """A deep copy of the grid, asked for in one of the ways GridLazy.CopyRoutes lists."""
+    import copy as _copy
+
+    if route == "grid":
+        return g.copy()
+    if route == "deepcopy":
+        return _copy.deepcopy(g)
+    ux = hux.import_ux()
+    da = _data_array(g, "a")
+    if route == "uxda_deep":
+        return da.copy(deep=True).uxgrid
+    if route == "uxda_deep_data":
+        return da.copy(deep=True, data=np.asarray(da.values) * 2.0).uxgrid
+    ds = ux.UxDataset({"a": da}, uxgrid=g)
+    if route == "uxds_deep":
+        return ds.copy(deep=True).uxgrid
+    if route == "uxds_deep_data":
+        return ds.copy(deep=True, data={"a": np.asarray(da.values) * 2.0}).uxgrid
+    raise KeyError(route)
+
+
 def mutate(g, how):
     import xarray as xr
 
@@ -225,7 +247,7 @@ class Session:
         src = self.sources.get(h)
         if act == "Copy":
             c = args[0]
-            o = outcome(lambda: g.copy())
+            o = outcome(lambda: copy_by(g, args[1] if len(args) > 1 else "grid"))
             ev["raised"] = o.raised
             ev["fresh_raised"] = False
             if not o.raised:
